@@ -125,7 +125,9 @@ GenC08Spec == GenC08Init /\ [][FALSE]_vars
 
 (* C11: header / trailer multimaps x outcome *)
 HdrSets == { <<>>, <<H("X-Hdr", <<"h1">>)>>, HdrB, <<H("X-Hdr", <<"a, b", "c">>), H("X-Data-Bin", <<"AAEC/w">>)>> }
-TrlSets == { <<>>, <<H("X-Trl", <<"t1">>)>>, TrlB, <<H("X-Trl", <<"t1", "t2", "t3">>), H("X-Sig-Bin", <<"/+8">>)>> }
+\* (names that begin with letters of the "Trailer-" prefix unary Connect puts in front of trailer names)
+TrlSets == { <<>>, <<H("X-Trl", <<"t1">>)>>, TrlB, <<H("X-Trl", <<"t1", "t2", "t3">>), H("X-Sig-Bin", <<"/+8">>)>>,
+             <<H("Trace-Id", <<"tr1">>), H("Tier", <<"gold">>), H("Timing-Bin", <<"AAEC">>), H("Retry-Trailer", <<"r">>)>> }
 GenC11Init ==
   \E p \in Protos, k \in Kinds, codec \in {"proto", "json"}, rh \in HdrSets \cup {HdrA}, sh \in HdrSets, st \in TrlSets,
      o \in {OK, Err(9, "ascii", 0, MetaE, 0), Err(9, "ascii", 0, <<>>, 1), [Err(9, "ascii", 0, MetaE, 0) EXCEPT !.kind = "wrapped"],
